@@ -22,7 +22,7 @@ variable (H : Data → Digest) (Hc : Str → Str)
 
 /-- result of an application's `OnRecvPacket`: `.error` aborts the transaction, `.ok ack`
     is the acknowledgement to write -/
-def appOnRecv (s : State) (p : Packet) (errText : String) : State × Except Err Data :=
+def appOnRecv (s : Apps) (p : Packet) (errText : String) : Apps × Except Err Data :=
   if p.port == mockPort then (s, .ok (.raw "6d6f636b2061636b6e6f776c656467656d656e74"))  -- hex("mock acknowledgement")
   else if p.port == nftPort then
     match p.data with
@@ -44,7 +44,7 @@ def appOnRecv (s : State) (p : Packet) (errText : String) : State × Except Err 
 def routed (port : String) : Bool := port == mockPort || port == nftPort || port == mtPort
 
 /-- an application's `OnAcknowledgementPacket` -/
-def appOnAck (s : State) (p : Packet) (ack : Data) : State × Res :=
+def appOnAck (s : Apps) (p : Packet) (ack : Data) : Apps × Res :=
   if p.port == mockPort then (s, .ok)
   else if p.port == nftPort then
     match ack with
@@ -63,26 +63,32 @@ def logCb (s : State) (kind : String) (p : Packet) : State :=
 
 /-- `msgServer.RecvPacket` -/
 def msgRecvPacket (s : State) (p : Packet) (π : Proof) (h : Nat) (errText : String) : State × Res :=
-  match liftCore s (s.core.recvPacket H p π h) with
-  | (s, .err .unauthorized) =>
-    liftCore s (s.core.writeAck H p (.ackErr "756e617574686f72697a6564"))  -- hex("unauthorized")
-  | (s, .err e) => (s, .err e)
-  | (s, .ok) =>
-    if p.dst == s.core.name then
-      if !routed p.port then (s, .err .invalidRoute)
+  match s.core.recvPacket H p π h with
+  | (c, .err .unauthorized) =>
+    let r := c.writeAck H p (.ackErr "756e617574686f72697a6564")  -- hex("unauthorized")
+    ({ s with core := r.1 }, r.2)
+  | (c, .err e) => ({ s with core := c }, .err e)
+  | (c, .ok) =>
+    if p.dst == c.name then
+      if !routed p.port then ({ s with core := c }, .err .invalidRoute)
       else
-        match appOnRecv Hc (logCb s "recv" p) p errText with
-        | (s, .error e) => (s, .err e)
-        | (s, .ok ack) => liftCore s (s.core.writeAck H p ack)
-    else (s, .ok)
+        let log := s.cbLog ++ [⟨"recv", p.port, p.key⟩]
+        match appOnRecv Hc s.apps p errText with
+        | (a, .error e) => ({ core := c, apps := a, cbLog := log }, .err e)
+        | (a, .ok ack) =>
+          let r := c.writeAck H p ack
+          ({ core := r.1, apps := a, cbLog := log }, r.2)
+    else ({ s with core := c }, .ok)
 
 /-- `msgServer.Acknowledgement` -/
 def msgAcknowledgement (s : State) (p : Packet) (ack : Data) (π : Proof) (h : Nat) : State × Res :=
   if !routed p.port then (s, .err .invalidRoute)
   else
-    match liftCore s (s.core.acknowledgePacket H p ack π h) with
-    | (s, .err e) => (s, .err e)
-    | (s, .ok) => appOnAck Hc (logCb s "ack" p) p ack
+    match s.core.acknowledgePacket H p ack π h with
+    | (c, .err e) => ({ s with core := c }, .err e)
+    | (c, .ok) =>
+      let r := appOnAck Hc s.apps p ack
+      ({ core := c, apps := r.1, cbLog := s.cbLog ++ [⟨"ack", p.port, p.key⟩] }, r.2)
 
 /-- stateless `ValidateBasic` of each message -/
 def validateBasic : Msg → Res
